@@ -92,19 +92,21 @@ def showEVV (l : List (Entity × Nat × Nat)) : String :=
   let l := sortBy (fun a b => entLt a.1 b.1) l
   "[" ++ ";".intercalate (l.map (fun p => showEntity p.1 ++ "=" ++ toString p.2.1 ++ ">" ++ toString p.2.2)) ++ "]"
 
-/-- rendering of the reports for the reads that were performed (`~n` = abandoned after n items) -/
+/-- rendering of the reports for the reads that were performed (`~n` = abandoned after n items); a report
+read more than once is shown as its last read saw it -/
 def showReports (reads : List Tracker.Read) (added : List (Entity × Nat)) (changed : List (Entity × Nat × Nat))
     (removed : List (Entity × Nat)) : String :=
   let part (k : Nat) := s!"~{min k 1}"
-  let a := match reads.find? (fun r => match r with | .added _ => true | _ => false) with
+  let rr := reads.reverse
+  let a := match rr.find? (fun r => match r with | .added _ => true | _ => false) with
     | some (.added true) => part added.length
     | some _ => showEV added
     | none => "-"
-  let c := match reads.find? (fun r => match r with | .changed _ => true | _ => false) with
+  let c := match rr.find? (fun r => match r with | .changed _ => true | _ => false) with
     | some (.changed true) => part changed.length
     | some _ => showEVV changed
     | none => "-"
-  let r := match reads.find? (fun r => match r with | .removed _ => true | _ => false) with
+  let r := match rr.find? (fun r => match r with | .removed _ => true | _ => false) with
     | some (.removed true) => part removed.length
     | some _ => showEV removed
     | none => "-"
@@ -282,7 +284,12 @@ def specLine (ss : Specs) (lhs rhs : String) : Except String Specs :=
       let added := Tracker.specAdded s.tprev cur
       let changed := Tracker.specChanged s.tprev cur
       let removed := Tracker.specRemoved s.tprev cur (s.live.map (·.1))
-      let want := showReports reads added changed removed
+      -- a second read of `changed`/`removed` finds nothing left (`C18.second_read_empty`); `added` is the
+      -- same every time, its snapshot is attached when the `Changes` value is dropped
+      let times (p : Tracker.Read → Bool) : Nat := (reads.filter p).length
+      let changedSeen := if times (fun r => match r with | .changed _ => true | _ => false) ≥ 2 then [] else changed
+      let removedSeen := if times (fun r => match r with | .removed _ => true | _ => false) ≥ 2 then [] else removed
+      let want := showReports reads added changedSeen removedSeen
       if rhs.trimAscii.toString != want then .error s!"reports differ from the difference of consecutive snapshots: spec={want}"
       else
         -- insert_one/remove_one run (and flush reservations) only when something was added or removed
